@@ -255,3 +255,40 @@ package domain
 //@ lemma encodedAtInjective(b []byte, off int, p pointer, q pointer)
 //@   requires encodedAt(b, off, p) && encodedAt(b, off, q) && p.Start >= 0 && p.End >= 0 && q.Start >= 0 && q.End >= 0
 //@   ensures  p == q
+
+//@ # ---------------------------------------------------------------- Writer.commit (C01/C02/C03)
+//@ import xio "github.com/synnaxlabs/x/io"
+//@ ignorepkg github.com/synnaxlabs/alamos
+//@ ignorepkg io
+//@ # the rollover threshold (floating point arithmetic on the configured file size): any value
+//@ pure func (fc *fileController) realFileSizeCap() telem.Size
+//@ # a fresh file handle: nothing written through it yet
+//@ trusted func (fc *fileController) acquireWriter(ctx context.Context) (key uint16, size int64, w xio.TrackedWriteCloser, err error)
+//@   ensures err == nil ==> key >= 1 && size >= 0
+//@   modifies nothing
+//@ # the pointer a commit hands to the index: the writer's domain start, the resolved end, and
+//@ # exactly the bytes written through the current file handle (offset and length as the handle
+//@ # tracks them): a committed pointer never describes bytes that were not written (C02)
+//@ spec func commitPtr(w *Writer, p pointer) bool =
+//@   p.Start == w.Start && p.fileKey == w.fileKey && int64(p.offset) == xio.SpecOffset[w.internal] && int64(p.size) == xio.SpecLen[w.internal]
+//@ func (w *Writer) commit(ctx context.Context, end telem.TimeStamp, shouldPersist bool) (err error)
+//@   pragma opaque_func_values OnRollover
+//@   pragma abstract realFileSizeCap
+//@   requires w.idx != nil && w.fc != nil && WF(w.idx.mu.pointers) && w.Start >= 0 && end >= 0 && w.End >= 0 && w.prevCommit >= 0
+//@   requires 0 <= w.idx.persistHead && w.idx.persistHead <= len(w.idx.mu.pointers)
+//@   requires w.idx.indexPersist != nil && w.idx.indexPersist.p != nil && w.idx.indexPersist.idx == w.idx
+//@   # writer protocol: after a first commit (prevCommit set) the writer's domain is in the index
+//@   requires w.prevCommit != 0 ==> (exists k int :: 0 <= k && k < len(w.idx.mu.pointers) && w.idx.mu.pointers[k].Start == w.Start)
+//@   # data files stay below 4 GiB (offsets and sizes are stored as uint32)
+//@   requires xio.SpecOffset[w.internal] + xio.SpecLen[w.internal] <= 4294967295
+//@   ensures WF(w.idx.mu.pointers)
+//@   # the index is unchanged, or gained / had replaced exactly one pointer, and that pointer is the commit pointer
+//@   ensures sameSeq(w.idx.mu.pointers, old(w.idx.mu.pointers)) || (exists k int, p pointer :: (insertedAt(w.idx.mu.pointers, old(w.idx.mu.pointers), k, p) || replacedAt(w.idx.mu.pointers, old(w.idx.mu.pointers), k, p)) && p.Start == old(w.Start) && p.fileKey == old(w.fileKey) && int64(p.offset) == xio.SpecOffset[old(w.internal)] && int64(p.size) == xio.SpecLen[old(w.internal)] && old(w.Start) < p.End)
+//@   # nothing written since the last rollover: nothing to commit
+//@   ensures !old(w.closed) && !(old(w.presetEnd) && end > old(w.End)) && xio.SpecLen[old(w.internal)] == 0 ==> err == nil && sameSeq(w.idx.mu.pointers, old(w.idx.mu.pointers))
+//@   # a failed commit that did not reach the persist step leaves the index as it was
+//@   # (when the file is rolled over, Close / acquireWriter can fail after the pointer went in)
+//@   ensures err != nil && !shouldPersist && old(w.fileSize) < w.fc.realFileSizeCap() ==> sameSeq(w.idx.mu.pointers, old(w.idx.mu.pointers))
+//@   ensures old(w.closed) ==> err != nil
+//@   modifies w, w.idx
+//@   assert_before "f(ctx, ptr, shouldPersist)" commitPtr(w, ptr) && ptr.Start < ptr.End
